@@ -14,7 +14,9 @@ RULE = ("generated portfolio journals (2-5 commodities held in 2-4 asset/liabili
         "order.  Per journal: C20.weights (`portfolio weights --csv` + the same as a text table), C20.returns "
         "(`portfolio returns`), C20.cross (weights, `balance -v V --csv -a -s .` and returns on the same dates, window "
         "from the journal's start).  Model = exact rationals; compared within 1e-6 (weights) / 0.1 pp (returns).  Spec "
-        "verdict on the binary's output: top level = 100% +- 1e-6, group = sum of members, one row per commodity, columns "
+        "verdict on the binary's output: top level = 100% +- 1e-6, group = sum of members (without -m; with -m "
+        "mapping_law_b: every row = its member rows + the commodities map_path folds into the row itself, read off the leaf "
+        "rows of the table of the same command without -m), one row per commodity, columns "
         "are period ends, one return line per period of the extracted new_partition, weight x total = balance cell, "
         "0% for periods with unchanged prices and only external flows, V1/V0-1 for periods without transactions.  "
         "Non-trivial: >= 2 commodities in the report or >= 2 periods; distinct by input.")
@@ -32,16 +34,30 @@ TRUSTED_BASE = [
 ASSUMPTIONS = ["regular expressions on the command line are restricted to ^literal$ forms in generated cases",
                "--to is always passed explicitly (its default is today's date)",
                "Commodity.IsCurrency is false for every commodity (no command calls TagCurrency); the model keeps it as a parameter",
-               "generated -m rules collapse whole sub-trees (no regex, or a class prefix not longer than the level), so that no "
-               "row is at once a collapsed leaf and a group"]
+               "generated -m rules have level >= 1 (no commodity is hidden altogether); a rule may fold only part of a group "
+               "(regex = a class prefix longer than the level), so that a row can be a collapsed leaf and a group at once",
+               "no class of a generated universe is named like the path of a classified commodity (class A with commodity B "
+               "and class A:B): mapping_law_b presupposes that in the table without -m every commodity is a leaf row "
+               "(Spec/PortfolioMapSpec.prefix_free; Properties/C20.v C20_w4_needs_prefix_free shows the statement is false "
+               "of correct tables otherwise)"]
 TECHNIQUE = ("Coq proof over an executable Gallina model of ComputeValues/ComputeFlows/Performance/Perf/weights.Query/Report "
              "with rationals for float64 + correspondence within tolerances on generated journals + the property's executable "
              "statement evaluated on the binary's output, cross-checked against `knut balance -v`")
 LEVEL_TEXT = ("C20_weights_match_balance, C20_weight_def, C20_group_sum, C20_top_100, C20_every_period (repaired wiring; "
               "C20_every_period_refuted for the pinned returns.go), C20_external_flows_zero (repaired flow filter; _refuted for the "
-              "pinned one), C20_no_flow_ratio: Coq theorems over Q for every journal and configuration, closed under the global context.")
+              "pinned one), C20_no_flow_ratio: Coq theorems over Q for every journal and configuration, closed under the global context.  "
+              "Mapping (-m): C20_mapped_entries (the query with -m books the entries of the query without -m on the paths map_path "
+              "gives), C20_mapping_law (weight of the node at p of the mapped report = sum of the unmapped entries sent to p or below), "
+              "C20_mapping_law_local (= entries folded into p itself + children), C20_mapping_law_table (the executable statement "
+              "Spec/PortfolioSpec.mapping_law_b, which this check evaluates on the binary's two text tables, holds with tolerance 0 "
+              "of the model's two tables, for every universe, mapping, sort order and journal -- zero totals included -- with "
+              "prefix-free unmapped paths and no commodity hidden by a level-0 rule); Example C20_w3_partial_fold (`-m 1,^Equity:US`: "
+              "the row Equity is leaf and group at once).")
 LEVEL_NOTE = ("partial: float rounding is outside the theorems (rationals in the model); the model-to-code tie is sampled within "
-              "tolerances. Trusted: kernel, extraction, harness, the parsers named in the trusted base.")
+              "tolerances. C20_mapping_law / _local (sum over a whole subtree) assume defined weights (no zero total), as "
+              "C20_group_sum does; C20_mapping_law_table does not. mapping_law_b presupposes prefix-free paths in the table without "
+              "-m (C20_w4_needs_prefix_free: false of correct tables otherwise). Trusted: kernel, extraction, harness, the parsers "
+              "named in the trusted base.")
 
 TOL_W = 1e-6 + 1e-9
 TOL_R = 0.1 + 1e-9
